@@ -327,7 +327,12 @@ def run_history(rec, kind, rnd, cycles, case):
     with DependencyContext(DependencyManager()):
         try:
             dut, callers, targets, info = make(rnd)
-            circ = Circ(dut, callers, targets)
+            # a second, competing caller of the transformer's (exclusive) method in half of the histories: one caller is served per cycle
+            rival = None
+            if case.get("rep", 0) % 2 == 1 and len(callers) == 1 and not kind.startswith("nonex") and not getattr(dut, "use_condition", False):
+                rival = AdapterTrans.create(callers[0].iface)
+                rec.count("histories_with_rival_caller")
+            circ = Circ(dut, callers + ([rival] if rival is not None else []), targets)
             sim = PysimSimulator(circ, max_cycles=cycles + 10)
             from .. import txsan
             txsan.maybe_attach(sim, case)
@@ -342,6 +347,8 @@ def run_history(rec, kind, rnd, cycles, case):
                 sigs += [c.done, c.data_out]
             for t in targets:
                 sigs += [t.done, t.data_out]
+            if rival is not None:
+                sigs += [rival.done, rival.data_out]
             trig = ctx.tick().sample(*sigs)
             pc, pt = rnd.choice([0.3, 0.7, 1.0]), rnd.choice([0.3, 0.7, 1.0])
             nret = 0
@@ -351,9 +358,19 @@ def run_history(rec, kind, rnd, cycles, case):
                 cy = {"cycle": cyc, "c_en": [], "c_arg": [], "t_en": [], "t_ret": []}
                 for ci, c in enumerate(callers):
                     en, arg = rnd.random() < pc, (rnd.randrange(128) << 1 | (ci & 1))
-                    ctx.set(c.en, en)
+                    who = "main"
+                    if rival is not None and en:
+                        x = rnd.random()
+                        who = "both" if x < 0.45 else "rival" if x < 0.6 else "main"
+                    ctx.set(c.en, en and who != "rival")
                     if "x" in dict(c.data_in.shape()):
                         ctx.set(c.data_in, {"x": arg})
+                    if rival is not None:
+                        ctx.set(rival.en, en and who != "main")
+                        if "x" in dict(rival.data_in.shape()):
+                            ctx.set(rival.data_in, {"x": arg})
+                        if who == "both":
+                            rec.count("cycles_with_two_callers_requesting_the_method")
                     cy["c_en"].append(en)
                     cy["c_arg"].append(arg)
                 for t in targets:
@@ -367,6 +384,14 @@ def run_history(rec, kind, rnd, cycles, case):
                     cy["t_ret"].append(ret)
                 _, _, *v = await trig
                 k = len(callers)
+                if rival is not None:
+                    v = list(v)
+                    rdone, rout = bool(v[-2]), v[-1]
+                    v = v[:-2]
+                    rec.check("exclusive_method_serves_at_most_one_caller_per_cycle", not (rdone and bool(v[0])), case=case, detail={"cycle": cyc, "main_done": bool(v[0]), "rival_done": rdone})
+                    if rdone and not v[0]:
+                        v[0], v[1] = 1, rout  # the model sees one port, whichever caller was served
+                        rec.count("calls_served_to_the_rival_caller")
                 cy["c_done"] = [bool(v[2 * i]) for i in range(k)]
                 cy["c_out"] = [getattr(v[2 * i + 1], "x", 0) if "x" in dict(v[2 * i + 1].shape()) else 0 for i in range(k)]
                 cy["t_done"] = [bool(v[2 * k + 2 * i]) for i in range(len(targets))]
